@@ -123,9 +123,9 @@ def main():
             benign = name.endswith("-r")
             word = "FALSE ALARM in" if benign and hit else "silent" if benign else "caught by:"
             print(f"{name:12s} {word} {', '.join(hit) or ('' if benign else '-')}" + (f"   analysis-error: {', '.join(err)}" if err else ""))
-            for p in hit[:3]:
-                for ln in res[p]["reports"][:1]:
-                    print(f"             {p}: {ln[:200]}")
+            for p in hit + err:
+                for ln in res[p]["reports"][:8]:
+                    print(f"             {p}: {ln[:300]}")
     if not a.only:
         (VERIF / "seeded" / "RESULTS.json").write_text(json.dumps(out, indent=1))
     return 0
